@@ -51,7 +51,7 @@ Section Upload.
   Definition gen_upload (w : world) (e : env) : Uploader unit unit unit * option unit * list (effect unit unit unit) :=
     Uploader_upload unit unit unit unit unit unit unit
       (fun _ => (Z.of_N (last_index (w_db w)), fail (e_li_err e)))                                             (* LastIndex *)
-      (fun _ _ => fail (e_prov_err e))                                                                         (* Provide *)
+      (fun _ _ => fail (match provided (w_db w ++ e_mid e) e with None => true | Some _ => false end))        (* Provide: fails outright or runs out of attempts *)
       (fun _ _ => (match w_rid w with Some r => fmt (Z.of_N r) 10 | None => nonum end, fail (e_id_err e)))     (* CurrentID *)
       (fun _ _ _ _ => fail (e_up_fail e))                                                                      (* Upload *)
       (fun _ => EmptyString) (fun _ _ _ => (0%Z, None)) (fun _ => tt)                                           (* fd.Name, fd.Seek, NewCountingReader *)
@@ -77,12 +77,13 @@ Section Upload.
     intros w e. unfold gen_upload, Uploader_upload, round, rep, fail.
     cbn [Uploader_lastIndex Uploader_dataProvider Uploader_storageClient set_Uploader_lastIndex
          set_Uploader_lastUploadTime set_Uploader_lastUploadDuration].
+    cbn [set_db w_db].
     rewrite id_eqb.
     replace (Z.leb (Z.of_N (last_index (w_db w))) (Z.of_N (w_last w))) with (last_index (w_db w) <=? w_last w)
       by (destruct (N.leb_spec (last_index (w_db w)) (w_last w)), (Z.leb_spec (Z.of_N (last_index (w_db w))) (Z.of_N (w_last w))); try reflexivity; lia).
     replace (Z.eqb (Z.of_N (w_last w)) 0) with (w_last w =? 0)
       by (destruct (N.eqb_spec (w_last w) 0), (Z.eqb_spec (Z.of_N (w_last w)) 0); try reflexivity; lia).
-    destruct (e_li_err e), (last_index (w_db w) <=? w_last w), (e_prov_err e), (w_last w =? 0), (e_id_err e),
+    destruct (e_li_err e), (last_index (w_db w) <=? w_last w), (provided (w_db w ++ e_mid e) e), (w_last w =? 0), (e_id_err e),
       (opt_N_eqb (w_rid w) (last_index (w_db w))), (e_up_fail e); cbn; repeat split; reflexivity.
   Qed.
 End Upload.
